@@ -69,6 +69,7 @@ package system
 // onRuleUpdate and the assumed getRules contract (see DESIGN.md).
 
 //@ func onRuleUpdate(r) err
+//@   requires[holds-the-update-lock]{C15} wlockcount(updateRuleMux) > 0
 //@   props C13
 //@   ensures[swapped] err == nil && ruleMap == r
 //@   modifies ruleMap
@@ -85,3 +86,12 @@ package system
 //@   assumed
 //@   ensures gSysLoadN == old(gSysLoadN) + 1 && gSysLoadArg == rules
 //@   modifies heap, gSysLoadN, gSysLoadArg
+
+// ---- C15: lock discipline of the rule tables (a load, store or use of the variable outside its lock is a data race)
+//@ guarded ruleMap by ruleMapMux {C15}
+//@ guarded currentRules by updateRuleMux {C15}
+
+//@ func GetRules() r
+//@   props C15
+//@   replay race_system_getrules for read-of-ruleMap
+//@ lockorder updateRuleMux ruleMapMux {C15}
